@@ -357,7 +357,7 @@ CHECKS["C16"] = {
     "required_reach": ["types/pointer.py:Pointer._read", "types/pointer.py:Pointer._write",
                        "types/pointer.py:Pointer.dereference", "types/pointer.py:Pointer.__default__",
                        "types/pointer.py:Pointer.__add__", "cstruct.py:cstruct._make_pointer", "<compiled>"],
-    "required_cells": ["width:uint8", "width:uint16", "width:uint24", "width:uint32", "width:uint48", "width:uint64",
+    "required_cells": ["native-byte-orders", "width:uint8", "width:uint16", "width:uint24", "width:uint32", "width:uint48", "width:uint64",
                        "target:char", "target:wchar", "target:struct", "target:ptrptr", "reader:compiled", "reader:interpreted",
                        "endian:>", "union-pointers", "union-pointers:built-from-values", "reconfigured-width", "context-target:first", "context-target:last",
                        "context-target:both", "context-target:folded", "context-target:deep",
@@ -450,7 +450,7 @@ CHECKS["C18"] = {
     "required_reach": ["types/structure.py:StructureMetaType.add_field", "types/structure.py:StructureMetaType.start_update",
                        "types/structure.py:StructureMetaType.commit", "types/structure.py:StructureMetaType._update_fields",
                        "parser.py:TokenParser._struct", "compiler.py:Compiler.compile_read"],
-    "required_cells": ["pattern:all-single", "pattern:mixed", "transition:becomes-dynamic", "transition:gains-bit-fields",
+    "required_cells": ["size-named-in-the-length-of-another-structure", "pattern:all-single", "pattern:mixed", "transition:becomes-dynamic", "transition:gains-bit-fields",
                        "transition:alignment-grows", "self-reference", "instances-exist-before-extension",
                        "batch-left-by-exception", "discard-fields-sequence", "array-of-intermediate-state", "refused-extension-in-between",
                        "container-declared-before-member-extension",
